@@ -112,10 +112,10 @@ CHECKS["C07"] = {
     "engine": "HIST (explicit-state search over call histories vs InMemory) + STEP",
     "technique": "explicit-state enumeration of object-store call histories on both wrappers compared step by step with the reference InMemory store, plus exhaustive interleaving enumeration of concurrent callers per key",
     "design_ref": "DESIGN.md 5/C07",
-    "text": "hist: histories CORE*.FULL over keys {a, a/b, c}: CORE = 72 ops (every put mode and token role, multipart complete/abort, every copy and rename pair in both modes incl. self and missing source, delete), FULL = 123 ops (plus every payload size around the chunk size and every multipart split); MetaStore and EncryptedStore at chunk sizes {1,7,16} (+64 KiB thorough); quick = depth 2 exhaustive + depth 3 from one representative of each of 400 distinct depth-2 states, thorough = depth 3 exhaustive, 4-5 with state dedup; after each history the read battery (get, head, every GetRange kind at every boundary, get_ranges, if_match/if_none_match lists and *, date conditions and their precedence, three listings) runs on the live (warm cache) and a fresh (cold cache) instance and must equal InMemory's result class and bytes; Update succeeds iff the token is the latest commit's, Create iff absent; no token value ever repeats across commits or keys (run-wide set). step: 13 scenarios x both wrappers of 2-3 concurrent callers on one key over a gated store, all schedules (preemption bound 3 quick / 8 thorough - the enumeration is complete, levels run empty at 6-8): answers + final content equal some serial order of atomic steps on InMemory (rename = copy then delete, as documented).",
+    "text": "hist: histories CORE*.FULL over keys {a, a/b, c}: CORE = 72 ops (every put mode and token role, multipart complete/abort, every copy and rename pair in both modes incl. self and missing source, delete), FULL = 123 ops (plus every payload size around the chunk size and every multipart split); MetaStore and EncryptedStore at chunk sizes {1,7,16} (+64 KiB thorough); quick = depth 2 exhaustive + depth 3 from one representative of each of 400 distinct depth-2 states, thorough = depth 3 exhaustive, 4-5 with state dedup; a two-instance phase (22 ops on 2 keys, every op issued through long-lived instance A or B, all assignments: mutation answers, the CAS/create rule and token freshness must equal the single reference) and exhaustive token-flow phases (3 keys to depth 3, 2 keys to depth 4: overwrite, Update latest/stale, every copy incl. self-copy, rename, delete); after each history the read battery (get, head, every GetRange kind at every boundary, get_ranges, if_match/if_none_match lists and *, date conditions and their precedence, three listings) runs on the live (warm cache) and a fresh (cold cache) instance and must equal InMemory's result class and bytes; Update succeeds iff the token is the latest commit's, Create iff absent; no token value ever repeats across commits or keys (run-wide set). step: 16 scenarios x both wrappers of 2-3 concurrent callers on one key (incl. list racing put / copy-onto / multipart / Update on a cold key, with a post-race battery through the same live instance) over a store where every backend call is a scheduling point before its effect AND after it (response in flight), all schedules (preemption bound 3 quick / 8 thorough - the enumeration is complete, levels run empty at 6-8): answers + final content equal some serial order of atomic steps on InMemory (rename = copy then delete, as documented).",
     "note": "Reference = object_store 0.14.1 InMemory with three counted normalisations (delete of a missing key, its self-rename, the error variant for Update without e_tag). Two recorded deviations (known findings): get_ranges past the end, double overtake NotFound. Not covered: GetOptions.version, attributes/tags, a second long-lived instance with a stale cache.",
     "parts": [
-        {"part": "hist", "crate": "vstore", "bin": "c07_hist", "budget_quick": 40, "budget_thorough": 1100},
+        {"part": "hist", "crate": "vstore", "bin": "c07_hist", "budget_quick": 45, "budget_thorough": 1100},
         {"part": "step", "crate": "vstore", "bin": "c07_step", "budget_quick": 8, "budget_thorough": 200},
     ],
 }
@@ -125,7 +125,7 @@ CHECKS["C09"] = {
     "engine": "SCOPE (tamper-site enumeration) + HIST (leak/nonce scan)",
     "technique": "exhaustive single-site tamper enumeration (every bit, truncation, extension, swap, pointer and CBOR field edit) against every read path of the real EncryptedStore; exhaustive history enumeration with a byte scan of everything the backend ever received",
     "design_ref": "DESIGN.md 5/C09",
-    "text": "tamper: 24 scenarios (sizes {0,1,15,16,17,35} x {put, multipart, copy, rename} at chunk size 16; two generations of one key, a same-size and a different-size neighbour key): all 8 bit flips of every byte of every backend object, every truncation length, extensions, every chunk swap, every swap/replacement of payload objects across keys and generations, metadata swaps between keys, ~90 CBOR-level edits per metadata document (strip/zero each authentication field, re-point the generation); each site read through a fresh store (get, every boundary range, get_ranges, head, list; CBOR edits also in strict mode): every read returns exactly the original bytes/size or an error. leak: every history to depth 2 (thorough 3) of the C07 alphabet through EncryptedStore over a journalling store: no 8-byte plaintext window in any object version the backend ever received, every chunk opens under the harness's own AES-GCM with nonce n+index, no nonce is used for two different chunks in the whole run.",
+    "text": "tamper (e_tag and last_modified are part of the verdict; a compound downgrade family: every subset of {av,an,at,g,m} stripped x legacy object absent / own / foreign ciphertext x size edits, default and strict mode): 24 scenarios (sizes {0,1,15,16,17,35} x {put, multipart, copy, rename} at chunk size 16; two generations of one key, a same-size and a different-size neighbour key): all 8 bit flips of every byte of every backend object, every truncation length, extensions, every chunk swap, every swap/replacement of payload objects across keys and generations, metadata swaps between keys, ~90 CBOR-level edits per metadata document (strip/zero each authentication field, re-point the generation); each site read through a fresh store (get, every boundary range, get_ranges, head, list; CBOR edits also in strict mode): every read returns exactly the original bytes/size or an error. leak: every history to depth 2 (thorough 3) of the C07 alphabet through EncryptedStore over a journalling store: no 8-byte plaintext window in any object version the backend ever received, every chunk opens under the harness's own AES-GCM with nonce n+index, no nonce - chunk nonces and the seal nonce of every metadata document version in one run-wide set - is used twice over different data.",
     "note": "Cryptographic strength of AES-GCM and RNG quality are assumptions. Single-site tampers only (multi-site are probes without verdict); chunk size 16; e_tag/last_modified in head/list are soft counters.",
     "parts": [
         {"part": "tamper", "crate": "vstore", "bin": "c09_tamper", "budget_quick": 30, "budget_thorough": 900},
